@@ -2,11 +2,11 @@ package main
 
 import (
 	"context"
-	"runtime/debug"
 	"encoding/json"
 	"fmt"
 	"io"
 	"os"
+	"runtime/debug"
 	"sort"
 	"sync"
 
@@ -36,10 +36,10 @@ func (r *rng) intn(n int) int {
 	}
 	return int(r.next() % uint64(n))
 }
-func (r *rng) bool() bool          { return r.next()&1 == 1 }
-func (r *rng) chance(p int) bool   { return r.intn(100) < p }
+func (r *rng) bool() bool              { return r.next()&1 == 1 }
+func (r *rng) chance(p int) bool       { return r.intn(100) < p }
 func (r *rng) pick(xs []string) string { return xs[r.intn(len(xs))] }
-func (r *rng) fork() *rng          { return newRng(r.next()) }
+func (r *rng) fork() *rng              { return newRng(r.next()) }
 
 // ---- output ----
 
